@@ -2,10 +2,11 @@
 """collect_seeded.py <prop> <mutout-dir>: copy confirmed seeded mutations into /verif/seeded/<prop>-m<i>/"""
 import json, os, shutil, sys, glob
 prop, outdir = sys.argv[1:3]
+prefix = sys.argv[3] if len(sys.argv) > 3 else ""
 for m in sorted(glob.glob(os.path.join(outdir, "m*"))):
     if not os.path.exists(os.path.join(m, "result.json")):
         continue
-    name = "%s-%s" % (prop, os.path.basename(m))
+    name = "%s-%s%s" % (prop, prefix, os.path.basename(m))
     dst = os.path.join("/verif/seeded", name)
     os.makedirs(dst, exist_ok=True)
     shutil.copyfile(os.path.join(m, "patch.diff"), os.path.join(dst, "patch.diff"))
